@@ -591,6 +591,11 @@ func queryFace(ft *font.Font, w func(a ...any), seed uint64) {
 	}
 }
 
+// cpuBudgetFor is proportional to the input: 10 s plus 3 s per MiB (the 20 MB
+// collections of the corpus need several seconds for the whole catalogue even
+// unmutated, more on a loaded machine).
+func cpuBudgetFor(n int) float64 { return cpuBudget + 3*float64(n)/(1<<20) }
+
 const (
 	cpuBudget  = 10.0
 	allocFixed = 384 << 20
@@ -611,6 +616,16 @@ func Main() {
 			return
 		}
 		o := execute(c, data, 7)
+		// a CPU reading above the budget is re-measured: the verdict is the minimum of
+		// three runs (first-touch page faults of a freshly restored VM are charged to the
+		// thread clock once, an algorithmic blow-up every time)
+		for k := 0; k < 2 && o.panicV == nil && o.cpu > cpuBudgetFor(len(data)); k++ {
+			run.Cover("cpu-remeasured")
+			run.Note("re-measured: %.1f CPU s, %d bytes, %s %s %s", o.cpu, len(data), c.File, c.Kind, c.Note)
+			if o2 := execute(c, data, 7); o2.cpu < o.cpu {
+				o.cpu = o2.cpu
+			}
+		}
 		run.Eval(1)
 		run.Cover("mutation=" + c.Kind)
 		if f := corpus.ByID(c.File); f != nil {
@@ -620,8 +635,15 @@ func Main() {
 			run.Violation("C09/panic/"+vrun.TopFrame(o.where), fmt.Sprintf("panic on mutated font (%s %s): %v at %s", c.Kind, c.Note, o.panicV, o.where), c)
 			return
 		}
-		if o.cpu > cpuBudget {
-			run.Violation("C09/cpu-budget", fmt.Sprintf("%.1f CPU seconds for a %d-byte input (%s %s)", o.cpu, len(data), c.Kind, c.Note), c)
+		switch {
+		case o.cpu > 3:
+			run.Cover("cpu>3s")
+			run.Note("slow case: %.1f CPU s, %d bytes, %s %s %s edits=%v trunc=%d fault=%d", o.cpu, len(data), c.File, c.Kind, c.Note, c.Edits, c.Truncate, c.FaultAt)
+		case o.cpu > 1:
+			run.Cover("cpu>1s")
+		}
+		if b := cpuBudgetFor(len(data)); o.cpu > b {
+			run.Violation("C09/cpu-budget", fmt.Sprintf("%.1f CPU seconds for a %d-byte input, budget %.0f s (%s %s)", o.cpu, len(data), b, c.Kind, c.Note), c)
 		}
 		if lim := uint64(allocFixed + allocPerB*len(data)); o.alloc > lim {
 			run.Violation("C09/alloc-budget", fmt.Sprintf("%d MiB allocated for a %d-byte input, budget %d MiB (%s %s)", o.alloc>>20, len(data), lim>>20, c.Kind, c.Note), c)
@@ -670,17 +692,17 @@ func Main() {
 	total := nFiles * per
 
 	if run.Worker {
-		run.WorkerLoop(cpuBudget*2, func(i int) { one(GenCase(run.Seed, i, files)) })
+		run.WorkerLoop(cpuBudgetFor(24<<20)*1.5, func(i int) { one(GenCase(run.Seed, i, files)) })
 		run.Finish(vrun.Level{})
 	}
 
 	// calibration on the unmutated corpus: maximum CPU / allocation, must stay far below the budgets
-	var maxCPU float64
+	var maxCPU, maxCPUratio float64
 	var maxAllocRatio float64
 	calib := 0
 	for i, f := range files {
-		if !run.Thorough() && i%8 != 0 {
-			continue
+		if !run.Thorough() && i%8 != 0 && len(f.Bytes()) < 4<<20 {
+			continue // quick: every 8th file, and every large one
 		}
 		o := execute(&Case{File: f.ID}, f.Bytes(), 7)
 		calib++
@@ -691,6 +713,9 @@ func Main() {
 		if o.cpu > maxCPU {
 			maxCPU = o.cpu
 		}
+		if r := o.cpu / cpuBudgetFor(len(f.Bytes())); r > maxCPUratio {
+			maxCPUratio = r
+		}
 		if r := float64(o.alloc) / float64(allocFixed+allocPerB*len(f.Bytes())); r > maxAllocRatio {
 			maxAllocRatio = r
 		}
@@ -698,7 +723,7 @@ func Main() {
 	run.Extra("calibration_unmutated_files", calib)
 	run.Extra("calibration_max_cpu_s", maxCPU)
 	run.Extra("calibration_max_alloc_over_budget", maxAllocRatio)
-	if maxCPU > cpuBudget/4 || maxAllocRatio > 0.25 {
+	if maxCPUratio > 0.25 || maxAllocRatio > 0.25 {
 		run.Inconclusive(fmt.Sprintf("budgets not 4x above the unmutated corpus maximum (cpu %.2fs, alloc ratio %.2f)", maxCPU, maxAllocRatio))
 	}
 
@@ -708,7 +733,7 @@ func Main() {
 		head := vrun.FatalHead(d.Detail)
 		switch d.Kind {
 		case "cpu":
-			run.Violation("C09/cpu-budget", fmt.Sprintf("more than %.0f CPU seconds on a mutated font (%s %s), confirmed alone", cpuBudget*2, c.Kind, c.Note), c)
+			run.Violation("C09/cpu-budget", fmt.Sprintf("more than %.0f CPU seconds on a mutated font (%s %s), confirmed alone", cpuBudgetFor(24<<20)*1.5, c.Kind, c.Note), c)
 		default:
 			key := head
 			if k := strings.Index(key, ":"); k > 0 && strings.HasPrefix(key, "fatal error") {
@@ -720,7 +745,7 @@ func Main() {
 	run.Finish(vrun.Level{Level: "fault_enumeration",
 		Rule: "case i: corpus file (i mod #files) x one structure-aware mutation: truncation at a table boundary or 0..64 bytes into a table; an aligned 16/32-bit field in the first 256 bytes of a table (walked systematically over the tables first) or deeper, set to {0,1,2,0x7FFF,0x8000,0xFFFF,table length,length-1,file length,random}; a directory entry's offset/length/tag; swapped table bodies; a container header field (sfnt/TTC/WOFF/dfont); 1-4 random bytes; or a faulting Resource whose k-th Read/ReadAt/Seek fails, is short, or reports EOF. Then open + describe + footprint + query catalogue + shaping on every face. " +
 			"non-trivial = mutant accepted with >=1 face whose query digest differs from its parent's, or rejected by a table parser (not by the container check); distinct by hash(file, mutation)",
-		Assumptions: []string{"CPU per case measured on a locked OS thread; allocation by runtime/metrics delta in single-goroutine child processes under ulimit -v 8 GiB", "budgets: 10 s CPU, 384 MiB + 256 B per input byte; calibration on the unmutated corpus recorded in coverage"},
+		Assumptions: []string{"CPU per case measured on a locked OS thread; allocation by runtime/metrics delta in single-goroutine child processes under ulimit -v 8 GiB", "budgets: 10 s + 3 s/MiB CPU, 384 MiB + 256 B per input byte; calibration on the unmutated corpus recorded in coverage"},
 		Floor:       2000})
 }
 
